@@ -482,6 +482,100 @@ def parse (s : Str) : Except Err F64 :=
 
 def tryFromTerm : Term → Except Err F64 := tryFromTermWith Gen.Native.tryF64 parse
 
+/-! ### `impl Display for f64` on finite values, as a SPECIFICATION-LEVEL executable model
+
+`core` prints (`float_to_decimal_common_shortest`, Grisu with Dragon fallback) the SHORTEST digit string
+that identifies the value, the closest to it among the shortest, laid out by `digits_to_dec_str` without an
+exponent.  "Identifies" = lies in the rounding interval = reads back as the same bit pattern under
+round-to-nearest-even, so the model searches, for n = 1 … 17 digits, the two n-digit neighbours of the exact
+value (closest first) and keeps the first one whose layout READS BACK (`readBack`) to the bit pattern.
+Compared with the implementation's `lexical_form()` on every generated double (`lex` of the `f64` request). -/
+
+/-- exact value of a finite, non-zero magnitude (sign bit cleared) as a fraction -/
+def fracOf (x : F64) : Nat × Nat :=
+  let e := F64.expBits x
+  let m := F64.mantBits x
+  if e == 0 then (m, 2 ^ 1074)
+  else if e ≥ 1075 then ((m + 2 ^ 52) * 2 ^ (e - 1075), 1)
+  else (m + 2 ^ 52, 2 ^ (1075 - e))
+
+/-- decimal digits of `n`, most significant first, by structural recursion on a fuel (so that the kernel can
+evaluate it; the integer `Display` model above is defined by well-founded recursion) -/
+def decDigitsAux : Nat → Nat → Str → Str
+  | 0, _, acc => acc
+  | fuel + 1, n, acc =>
+    if n < 10 then digitChar n :: acc else decDigitsAux fuel (n / 10) (digitChar (n % 10) :: acc)
+
+/-- `Nat.log2 n + 1` bounds the number of decimal digits -/
+def decDigits (n : Nat) : Str := decDigitsAux (Nat.log2 n + 1) n []
+
+/-- least `t ≤ fuel` with `num * 10^t ≥ den` -/
+def shiftUp (num den : Nat) : Nat → Nat → Nat
+  | 0, t => t
+  | fuel + 1, t => if num * 10 ^ t ≥ den then t else shiftUp num den fuel (t + 1)
+
+/-- `k` with `10^(k-1) ≤ num/den < 10^k` (`num, den > 0`) -/
+def decExp (num den : Nat) : Int :=
+  if num ≥ den then ((decDigits (num / den)).length : Int)
+  else 1 - (shiftUp num den 400 0 : Int)
+
+/-- `digits_to_dec_str` with no minimum of fractional digits: the value is `0.D × 10^p` -/
+def layout (D : Str) (p : Int) : Str :=
+  if p ≤ 0 then '0' :: '.' :: (List.replicate (-p).toNat '0' ++ D)
+  else if p.toNat < D.length then D.take p.toNat ++ '.' :: D.drop p.toNat
+  else D ++ List.replicate (p.toNat - D.length) '0'
+
+/-- significant digits of `d` without trailing zeros (never empty) -/
+def sigDigits (d : Nat) : Str :=
+  match ((decDigits d).reverse.dropWhile (· == '0')).reverse with
+  | [] => ['0']
+  | l => l
+
+/-- the decimal `d × 10^q` laid out -/
+def render (neg : Bool) (d : Nat) (q : Int) : Str :=
+  let body := layout (sigDigits d) ((decDigits d).length + q)
+  if neg then '-' :: body else body
+
+/-- what `f64::from_str` returns on a string of the shape `layout` produces (a numeric form) -/
+def readBack (s : Str) : F64 := Dec.doubleOfNumericWith expClamped s
+
+/-- the two `n`-digit neighbours of `num/den`, closest first, as (digits value, power of ten) -/
+def neighbours (num den : Nat) (k : Int) (n : Nat) : List (Nat × Int) :=
+  let q : Int := k - n
+  let (a, b) := if q ≤ 0 then (num * 10 ^ (-q).toNat, den) else (num, den * 10 ^ q.toNat)
+  let lo := a / b
+  let r := a % b
+  if r == 0 then [(lo, q)]
+  else if 2 * r < b then [(lo, q), (lo + 1, q)]
+  else [(lo + 1, q), (lo, q)]          -- above the middle, or exactly in the middle (Dragon rounds half up)
+
+/-- first candidate that reads back -/
+def firstGood (x : F64) (neg : Bool) : List (Nat × Int) → Option Str
+  | [] => none
+  | (d, q) :: rest =>
+    let s := render neg d q
+    if d ≠ 0 ∧ readBack s = x then some s else firstGood x neg rest
+
+def searchDigits (x : F64) (neg : Bool) (num den : Nat) (k : Int) : Nat → Nat → Option Str
+  | 0, _ => none
+  | fuel + 1, n =>
+    match firstGood x neg (neighbours num den k n) with
+    | some s => some s
+    | none => searchDigits x neg num den k fuel (n + 1)
+
+/-- `format!("{}", x)` for a finite `x` (bit pattern `< 2^64`); `none` for non-finite values, and if no
+decimal of at most 17 digits reads back (which does not happen: differential, and the classical
+17-digit theorem) -/
+def display (x : F64) : Option Str :=
+  if !F64.isFinite x then none
+  else
+    let neg := F64.signBit x
+    let mag := x % 2 ^ 63
+    if mag == 0 then some (if neg then ['-', '0'] else ['0'])
+    else
+      let (num, den) := fracOf mag
+      searchDigits x neg num den (decExp num den) 17 1
+
 end RustF64
 
 end SophiaModel.Native
